@@ -261,6 +261,8 @@ CLI_CASES = [
     ("scale_not_number", ["--lat", "1", "--long", "1", "--scale", "big"]),
     ("max_range_not_number", ["--lat", "1", "--long", "1", "--max-range", "far"]),
     ("unknown_flag", ["--lat", "1", "--long", "1", "--frobnicate"]),
+    ("log_folder_is_a_file", ["--lat", "1", "--long", "1", "--log-folder", "@AFILE@"]),
+    ("log_folder_below_a_file", ["--lat", "1", "--long", "1", "--log-folder", "@AFILE@/logs"]),
     ("airports_missing_file", ["--lat", "1", "--long", "1", "--airports", "/nonexistent/airports.csv"]),
     ("airports_not_csv", ["--lat", "1", "--long", "1", "--airports", "@BADCSV@"]),
 ]
@@ -271,12 +273,12 @@ def cli_case(col, binpath, name, args, scratch):
     bad = os.path.join(scratch, f"bad-{name}.csv")
     with open(bad, "w") as f:
         f.write("this,is,not\nan airports,file\n")
-    args = [bad if x == "@BADCSV@" else x for x in args]
+    args = [bad if x == "@BADCSV@" else x.replace("@AFILE@", bad) for x in args]
     import tempfile, shutil
     srv = procs.FeedServer([("sleep", 30)])
     srv.start()
     work = tempfile.mkdtemp(prefix="cli-", dir=scratch)
-    argv = [os.path.join(binpath, "radar"), "--log-folder", os.path.join(work, "logs")]
+    argv = [os.path.join(binpath, "radar")] + ([] if "--log-folder" in args else ["--log-folder", os.path.join(work, "logs")])
     if "--port" not in args:
         argv += ["--port", str(srv.port)]
     argv += args
